@@ -290,37 +290,81 @@ def ps7(ctx):
         ctx.missing('wrappers', 'fewer than 3 persist wrappers found between the API and the block writer')
 
 
+def rollover_sites(ctx):
+    """(body, point, what) for every replacement of the writer's file handle (store to RollingWriter.file)
+    and every file open/create in the same body — wherever that code lives (block writer or a helper)."""
+    out = []
+    for b in ctx.f.bodies.values():
+        if b.generic_dup():
+            continue
+        stores = [p for (p, pl, rv) in b.stores if mem_loc(pl) == 'RollingWriter.file']
+        if not stores:
+            continue
+        for p in stores:
+            out.append((b, p, 'handle replaced'))
+        for cs in b.calls:
+            if cs.node is not None and (ctx.E.call_may(cs, 'CREATE') or ctx.E.call_may(cs, 'OPENRW')):
+                out.append((b, cs.point, 'open/create ' + cs.path.split('::')[-1]))
+        for (p, e, cs) in ctx.E.direct_sites(b):
+            if e in ('CREATE', 'OPENRW'):
+                out.append((b, p, 'open/create'))
+    return out
+
+
 @rule('ROLL1', ['C02', 'C03'], floor=3, template='must-pass-through')
 def roll1(ctx):
     """Roll-over: the old file is flushed, fsynced and the directory synced before the next file is
     created/opened and before the writer's handle is replaced."""
-    bs = [b for b in ctx.f.bodies.values() if b.name == BW_WRITE]
-    if not bs:
-        ctx.missing('write-impl', BW_WRITE + ' not found')
-        return
-    b = bs[0]
-    fl_s = [p for (p, e, cs) in ctx.E.direct_sites(b) if e == 'FLUSH']
-    fs_s = [p for (p, e, cs) in ctx.E.direct_sites(b) if e == 'FSYNC']
-    ds_s = ctx.E.must_sites(b, 'DIRSYNC')
-    targets = []
-    for cs in b.calls:
-        if cs.node is not None and (ctx.E.call_may(cs, 'CREATE') or ctx.E.call_may(cs, 'OPENRW')):
-            targets.append(('open/create ' + cs.path.split('::')[-1], cs.point))
-    for (p, e, cs) in ctx.E.direct_sites(b):
-        if e in ('CREATE', 'OPENRW'):
-            targets.append(('open/create', p))
-    for (p, pl, rv) in b.stores:
-        if mem_loc(pl) == 'RollingWriter.file':
-            targets.append(('handle replaced', p))
+    from vocab import lifted_dominated
+    sites = rollover_sites(ctx)
+    if not sites:
+        ctx.missing('rollover', 'no replacement of RollingWriter.file found')
     seen = {}
-    for (what, t) in targets:
-        d1 = any(b.dominates(p, t) for p in fl_s)
-        d2 = any(b.dominates(p, t) for p in fs_s)
-        d3 = any(b.dominates(p, t) for p in ds_s)
-        order = any(any(b.dominates(f, s) for f in fl_s) for s in fs_s)
-        seen[what] = seen.get(what, 0) + 1
-        ctx.check(d1 and d2 and d3 and order, '%s:%s#%d' % (b.path, what, seen[what]), where(b, t), '%s dominated by flush, fdatasync, dirsync of the old file' % what,
+    for (b, t, what) in sites:
+        def dominated_by(effect):
+            def pred(bb, cs):
+                return (ctx.E.call_must(bb, cs, effect)) if cs.node is not None else (effect in __import__('effects').prim_effects(cs.name))
+            ok, _w = lifted_dominated(ctx, b, t, pred)
+            return ok
+        d1, d2, d3 = dominated_by('FLUSH'), dominated_by('FSYNC'), dominated_by('DIRSYNC')
+        # order inside the body that holds them
+        fl_s = [p for (p, e, cs) in ctx.E.direct_sites(b) if e == 'FLUSH']
+        fs_s = [p for (p, e, cs) in ctx.E.direct_sites(b) if e == 'FSYNC']
+        order = (not fl_s or not fs_s) or any(any(b.dominates(f, s) for f in fl_s) for s in fs_s)
+        k = '%s:%s' % (b.path, what)
+        seen[k] = seen.get(k, 0) + 1
+        ctx.check(d1 and d2 and d3 and order, '%s#%d' % (k, seen[k]), where(b, t), '%s dominated by flush, fdatasync, dirsync of the old file' % what,
                   'at roll-over the old WAL file is not flushed+fsynced (+dirsync) before "%s": its tail would only be flushed by Drop, never fsynced (flush:%s fsync:%s dirsync:%s order:%s)' % (what, d1, d2, d3, order))
+
+
+@rule('ROLL2', ['C02', 'C06'], floor=1, template='pairing')
+def roll2(ctx):
+    """Roll-over replaces handle, file number and offset together, before the next byte is written."""
+    n = 0
+    for b in ctx.f.bodies.values():
+        if b.generic_dup():
+            continue
+        fs = [p for (p, pl, rv) in b.stores if mem_loc(pl) == 'RollingWriter.file']
+        if not fs:
+            continue
+        fn_s = [p for (p, pl, rv) in b.stores if mem_loc(pl) == 'RollingWriter.file_number']
+        off0 = [p for (p, pl, rv) in b.stores if mem_loc(pl) == 'RollingWriter.offset' and rv['k'] == 'use' and op_const_bits(rv['op']) == 0]
+        exits = [e['point'] for e in b.ok_exits()] + [p for (p, e, cs) in ctx.E.direct_sites(b) if e == 'WRITE']
+        for f in fs:
+            n += 1
+            def paired(stores):
+                if not stores:
+                    return False
+                # every path from the handle replacement to a write / successful return passes the store (or the store dominates f)
+                if any(b.dominates(x, f) for x in stores):
+                    return True
+                r = b.reach_after(f, avoid=stores)
+                return not any(e in r for e in exits)
+            ok1, ok2 = paired(fn_s), paired(off0)
+            ctx.check(ok1 and ok2, '%s:handle-number-offset' % b.path, where(b, f), 'file handle, file number and offset = 0 are replaced together',
+                      'roll-over replaces the file handle without also %s: writes would be attributed to the wrong file / the cursor would be wrong' % ('updating file_number' if not ok1 else 'resetting the offset'))
+    if n == 0:
+        ctx.missing('rollover', 'no replacement of RollingWriter.file found')
 
 
 def create_bodies(ctx):
@@ -386,26 +430,28 @@ def sz1(ctx):
 @rule('SZ2', ['C02'], floor=1, template='sibling-agreement')
 def sz2(ctx):
     """Every handle stored into RollingWriter.file at roll-over has been sized to FILE_NUM_BYTES."""
-    bs = [b for b in ctx.f.bodies.values() if b.name == BW_WRITE]
-    if not bs:
-        ctx.missing('write-impl', BW_WRITE + ' not found')
-        return
-    b = bs[0]
-    stores = [p for (p, pl, rv) in b.stores if mem_loc(pl) == 'RollingWriter.file']
-    if not stores:
-        ctx.missing('file-store', 'no store to RollingWriter.file in the block writer')
-    cut = list(setlen_full_sites(ctx, b))
-    for cs in b.calls:
-        if cs.node is not None and ctx.E.call_may(cs, 'SETLEN'):
-            cb = ctx.f.bodies[cs.node]
-            sl = setlen_full_sites(ctx, cb)
-            exits = [e['point'] for e in cb.ok_exits()]
-            if sl and all(any(cb.dominates(p, e) for p in sl) for e in exits):
-                cut.append(cs.point)
-    for s in stores:
-        r = b.reach([b.entry], avoid=cut)
-        ctx.check(s not in r, '%s:reuse-arm' % b.path, where(b, s), 'every path to the handle replacement sizes the new file (set_len(FILE_NUM_BYTES) or create_file)',
-                  'a next WAL file can become the writer\'s file without set_len(FILE_NUM_BYTES): a 0-length leftover of a crash during file creation would swallow everything written to it')
+    n = 0
+    for b in ctx.f.bodies.values():
+        if b.generic_dup():
+            continue
+        stores = [p for (p, pl, rv) in b.stores if mem_loc(pl) == 'RollingWriter.file']
+        if not stores:
+            continue
+        cut = list(setlen_full_sites(ctx, b))
+        for cs in b.calls:
+            if cs.node is not None and ctx.E.call_may(cs, 'SETLEN'):
+                cb = ctx.f.bodies[cs.node]
+                sl = setlen_full_sites(ctx, cb)
+                exits = [e['point'] for e in cb.ok_exits()]
+                if sl and all(any(cb.dominates(p, e) for p in sl) for e in exits):
+                    cut.append(cs.point)
+        for s_ in stores:
+            n += 1
+            r = b.reach([b.entry], avoid=cut)
+            ctx.check(s_ not in r, '%s:reuse-arm' % (BW_WRITE if b.name == BW_WRITE else b.path), where(b, s_), 'every path to the handle replacement sizes the new file (set_len(FILE_NUM_BYTES) or create_file)',
+                      'a next WAL file can become the writer\'s file without set_len(FILE_NUM_BYTES): a 0-length leftover of a crash during file creation would swallow everything written to it')
+    if n == 0:
+        ctx.missing('file-store', 'no store to RollingWriter.file found')
 
 
 @rule('W1', ['C02', 'C15'], floor=4, template='who-may-call')
